@@ -29,6 +29,21 @@ ENV_ASSUME = [
     'environment model of DESIGN.md section 7 (atomic transactions, depth-first dispatch, bank rejects zero/overdraft sends, exact staking accounting)',
 ]
 
+# message-surface tie (DESIGN.md 11.11): `krp-harness surface` prints the variants and fields of the
+# instantiate / execute / hook / migrate / query message types of the six contracts from the code's own
+# types (schemars); lib/surface.txt pins the surface the model's message alphabet was written against.
+# A NEW variant or field of a state-changing message kind is outside every theorem's quantification, so
+# the properties of that contract are no longer shown; new QUERY variants are harmless and ignored.
+SURFACE_KINDS = ('execute', 'hook', 'instantiate', 'migrate')
+_HUB_SURF = ['hub.']
+SURFACE = {
+    'C01': _HUB_SURF, 'C02': _HUB_SURF + ['reg.'], 'C03': _HUB_SURF, 'C04': _HUB_SURF, 'C05': _HUB_SURF, 'C06': _HUB_SURF,
+    'C07': _HUB_SURF, 'C08': _HUB_SURF, 'C09': _HUB_SURF, 'C10': ['hub.', 'reward.', 'disp.', 'reg.', 'bsei.', 'stsei.'],
+    'C11': _HUB_SURF, 'C12': ['reg.'], 'C13': ['reg.', 'hub.'], 'C14': ['reward.'], 'C15': ['reward.'],
+    'C16': ['reward.', 'bsei.'], 'C17': ['disp.'], 'C18': ['bsei.', 'stsei.'], 'C19': ['disp.', 'hub.', 'reward.'],
+    'C20': ['hub.', 'disp.', 'reward.', 'reg.'],
+}
+
 PROPS = {
     'C12': dict(
         props_file='Props/C12.v',
